@@ -1,0 +1,21 @@
+//go:build verif
+
+package sample
+
+import (
+	"io"
+
+	"github.com/cronokirby/saferith"
+)
+
+// VerifPrimeSource, when set by the verification harness, supplies the two safe primes
+// returned by Paillier instead of searching for them. It only exists with the `verif` tag.
+// Returning nil values falls back to the normal search.
+var VerifPrimeSource func(rand io.Reader) (p, q *saferith.Nat)
+
+func verifPrimes(rand io.Reader) (p, q *saferith.Nat) {
+	if VerifPrimeSource == nil {
+		return nil, nil
+	}
+	return VerifPrimeSource(rand)
+}
